@@ -338,6 +338,11 @@ def body(ctx):
         mod, alive, dropped = irbuild.build_blocks(ctx, prelude, blocks, "c05_%d" % ci, only=lambda n: n.split("_")[0] in ("conv", "conva", "lossy", "ovf", "trunc", "rc"))
         fs = []
         st = dict(ob=0, dis=0, int_int=0, float_src=0, int_float=0, fcells=0, dropped=len(dropped))
+        for k, msg in dropped.items():
+            # every instance here is an explicit-rep form for a factor both reps can hold: it compiles
+            S, D, fr, irr = meta[k]
+            fs.append(("%s->%s@%s|refused" % (S, D, "pi/180" if irr else fr), "the explicit-rep conversion %s -> %s with factor %s, or one of its <T> checkers, is refused by clang++ -std=c++14: %s"
+                       % (S, D, "pi/180" if irr else fr, msg), ""))
         for k in alive:
             S, D, fr, irr = meta[k]
             if model.is_int(S) and model.is_int(D):
